@@ -14,6 +14,8 @@ def GoodDir (D : Key) (p : Str) : Prop := isAbs p = true ∧ Cmp D (keyOfAbs p)
 /-- a directory entry name: non-empty, no slash, not `..` -/
 def Plain (n : Str) : Prop := n ≠ [] ∧ '/' ∉ n ∧ n ≠ dotdot
 
+instance (n : Str) : Decidable (Plain n) := by unfold Plain; infer_instance
+
 theorem keyOf_abs (cwd p : Str) (h : isAbs p = true) : keyOf cwd p = keyOfAbs p := by
   unfold keyOf join; simp [h]
 
@@ -315,6 +317,8 @@ theorem copydirDirStep_extra (dst : Str) (ex : List Str) (rel : List Str) (a : C
 def WalkOK (w : List WalkRec) : Prop :=
   ∀ r ∈ w, (∀ c ∈ r.rel, Plain c) ∧ (∀ e ∈ r.dirs, Plain e.1) ∧ (∀ e ∈ r.files, Plain e.1)
 
+instance (w : List WalkRec) : Decidable (WalkOK w) := by unfold WalkOK; infer_instance
+
 theorem Inv_copydirRec (sd dd : Str) (ef ed : List Str) (m : Option FileMode) (fo : Option Bool)
     (st : St × List (List Str)) (r : WalkRec) (hd : Good D dd)
     (hr : (∀ c ∈ r.rel, Plain c) ∧ (∀ e ∈ r.dirs, Plain e.1) ∧ (∀ e ∈ r.files, Plain e.1))
@@ -393,7 +397,7 @@ theorem Inv_installFileTo (e : DataEntry) (out outdir : Str) (fo : Option Bool) 
   have h1 := Inv_doCopyfile cfg e.path e.src out (some outdir) fo s hg
     (by intro od h; cases h; exact hod) hb hI
   unfold installFileTo
-  dsimp only
+  try dsimp only
   split
   · exact h1
   · split
@@ -403,7 +407,7 @@ theorem Inv_installFileTo (e : DataEntry) (out outdir : Str) (fo : Option Bool) 
 theorem Inv_installHeader (s : St) (e : DataEntry) (hb : basename e.path ≠ dotdot) (hI : Inv D fs0 s) :
     Inv D fs0 (installHeader cfg s e) := by
   unfold installHeader
-  dsimp only
+  try dsimp only
   split
   · exact hI
   · split
@@ -412,12 +416,12 @@ theorem Inv_installHeader (s : St) (e : DataEntry) (hb : basename e.path ≠ dot
       · exact Inv_fail _ hI
       · rename_i out hout
         have hg := hdest _ _ hout
-        exact Inv_installFileTo cfg e _ _ _ s (hg.join_name (basename_noSep _) hb) hg.toDir hb hI
+        exact Inv_installFileTo cfg hdest e _ _ _ s (hg.join_name (basename_noSep _) hb) hg.toDir hb hI
 
 theorem Inv_installMan (s : St) (e : DataEntry) (hb : basename e.path ≠ dotdot) (hI : Inv D fs0 s) :
     Inv D fs0 (installMan cfg s e) := by
   unfold installMan
-  dsimp only
+  try dsimp only
   split
   · exact hI
   · split
@@ -426,12 +430,12 @@ theorem Inv_installMan (s : St) (e : DataEntry) (hb : basename e.path ≠ dotdot
       · exact Inv_fail _ hI
       · rename_i out hout
         have hg := hdest _ _ hout
-        exact Inv_installFileTo cfg e _ _ _ s hg hg.dirname hb hI
+        exact Inv_installFileTo cfg hdest e _ _ _ s hg hg.dirname hb hI
 
 theorem Inv_installDataOne (s : St) (e : DataEntry) (hb : basename e.path ≠ dotdot) (hI : Inv D fs0 s) :
     Inv D fs0 (installDataOne cfg s e) := by
   unfold installDataOne
-  dsimp only
+  try dsimp only
   split
   · exact hI
   · split
@@ -440,12 +444,12 @@ theorem Inv_installDataOne (s : St) (e : DataEntry) (hb : basename e.path ≠ do
       · exact Inv_fail _ hI
       · rename_i out hout
         have hg := hdest _ _ hout
-        exact Inv_installFileTo cfg e _ _ _ s hg hg.dirname hb hI
+        exact Inv_installFileTo cfg hdest e _ _ _ s hg hg.dirname hb hI
 
 theorem Inv_installEmptydir (s : St) (e : EmptyDirEntry) (hI : Inv D fs0 s) :
     Inv D fs0 (installEmptydir cfg s e) := by
   unfold installEmptydir
-  dsimp only
+  try dsimp only
   split
   · exact hI
   · split
@@ -465,7 +469,7 @@ theorem Inv_installEmptydir (s : St) (e : EmptyDirEntry) (hI : Inv D fs0 s) :
 theorem Inv_installSymlink (s : St) (e : SymlinkEntry) (hI : Inv D fs0 s) :
     Inv D fs0 (installSymlink cfg s e) := by
   unfold installSymlink
-  dsimp only
+  try dsimp only
   split
   · exact hI
   · split
@@ -487,7 +491,7 @@ theorem Inv_installTarget (buildDir : Str) (hbd : cfg.buildDir = buildDir) (s : 
     (ht : WalkOK t.walk ∧ basename t.fname ≠ dotdot ∧ basename (join buildDir (rstripSlash t.fname)) ≠ dotdot)
     (hI : Inv D fs0 s) : Inv D fs0 (installTarget cfg s t) := by
   unfold installTarget
-  dsimp only
+  try dsimp only
   split
   · exact hI
   · split
@@ -516,5 +520,64 @@ theorem Inv_installTarget (buildDir : Str) (hbd : cfg.buildDir = buildDir) (s : 
                     (Inv_dmMakedirs cfg _ _ _ (hg.toDir.key cfg) hI)))
 
 end
+
+/-! ### the whole installation -/
+
+theorem isAbs_resolveDestdir (buildDir : Str) (d : Option Str) (hb : isAbs buildDir = true)
+    (hne : resolveDestdir buildDir d ≠ []) : isAbs (resolveDestdir buildDir d) = true := by
+  unfold resolveDestdir at hne ⊢
+  cases d with
+  | none => simp at hne
+  | some d =>
+    simp only at hne ⊢
+    split
+    · exact isAbs_join _ _ hb
+    · rename_i hc
+      by_cases hd : d = []
+      · subst hd; simp at hne
+      · simpa [hd] using hc
+
+theorem dest_mkCfg (p : Plan) (o : Opts) (hd : isAbs (mkCfg p o).destdir = true) :
+    Dest (mkCfg p o) (keyOfAbs (mkCfg p o).destdir) := by
+  intro path out h
+  unfold destPath at h
+  simp only [] at h
+  split at h
+  · rename_i hok
+    simp only [Option.some.injEq] at h
+    have ho : isAbs out = true := by
+      rw [← h]; exact isAbs_getDestdirPath (mkCfg p o).destdir p.pfx path hd
+    exact ⟨ho, destOk_sound _ _ hd ho (h ▸ hok)⟩
+  · simp at h
+
+theorem Inv_installBody (p : Plan) (o : Opts) (fs0 : FS) (s : St) (hp : PlanOK p)
+    (hd : isAbs (mkCfg p o).destdir = true) (hI : Inv (keyOfAbs (mkCfg p o).destdir) fs0 s) :
+    Inv (keyOfAbs (mkCfg p o).destdir) fs0 (installBody (mkCfg p o) p s) := by
+  have hdest := dest_mkCfg p o hd
+  unfold installBody
+  dsimp only
+  refine foldl_pres _ (fun _ => True) _ (fun s e _ h => Inv_installSymlink _ hdest s e h) _ (by simp) _ ?_
+  refine foldl_pres _ (fun e : DataEntry => basename e.path ≠ dotdot) _
+    (fun s e he h => Inv_installDataOne _ hdest s e he h) _ hp.data _ ?_
+  refine foldl_pres _ (fun _ => True) _ (fun s e _ h => Inv_installEmptydir _ hdest s e h) _ (by simp) _ ?_
+  refine foldl_pres _ (fun e : DataEntry => basename e.path ≠ dotdot) _
+    (fun s e he h => Inv_installMan _ hdest s e he h) _ hp.man _ ?_
+  refine foldl_pres _ (fun e : DataEntry => basename e.path ≠ dotdot) _
+    (fun s e he h => Inv_installHeader _ hdest s e he h) _ hp.headers _ ?_
+  refine foldl_pres _ (fun t : TargetEntry => WalkOK t.walk ∧ basename t.fname ≠ dotdot ∧
+      basename (join p.buildDir (rstripSlash t.fname)) ≠ dotdot) _
+    (fun s t ht h => Inv_installTarget _ hdest p.buildDir rfl s t ht h) _ hp.targets _ ?_
+  exact foldl_pres _ (fun e : SubdirEntry => WalkOK e.walk) _
+    (fun s e he h => Inv_installSubdir _ hdest s e he h) _ hp.subdirs _ hI
+
+theorem Inv_install (p : Plan) (o : Opts) (fs : FS) (hp : PlanOK p) (hne : (mkCfg p o).destdir ≠ []) :
+    Inv (keyOfAbs (mkCfg p o).destdir) fs (install p o fs) := by
+  have hd : isAbs (mkCfg p o).destdir = true := isAbs_resolveDestdir p.buildDir o.destdir hp.buildAbs hne
+  unfold install
+  dsimp only
+  apply Inv_of_fs rfl
+  apply Inv_installBody p o fs _ hp hd
+  intro k _
+  exact Or.inl rfl
 
 end MesonModel.Install
